@@ -16,7 +16,8 @@ reg(Prop('C01', [
     Stream('c01.deep', 1, 1000, 'oracle', shards=8, timeout=900,
            exhaustive='fixed family of large inputs (1k/20k/120k): zero aranges tuples, nested DIE chains, long CFI programs'),
 ], level='proof', design_ref='§5 C01',
-    clauses=['uleb_no_panic', 'sleb_no_panic', 'uleb16_no_panic', 'reader_ops_no_panic'],
+    clauses=['uleb_no_panic', 'sleb_no_panic', 'uleb16_no_panic', 'reader_ops_no_panic',
+             'c01_c02_no_panic', 'c01_c03_no_panic', 'c01_c03_line_parse_no_panic', 'c01_c04_no_panic_parse_insn', 'c01_c04_no_panic_rows', 'c01_c04_no_panic_parse_header', 'c01_c05_entries_total', 'c01_c05_fde_parse_total', 'c01_c05_fde_for_address_total', 'c01_c05_hdr_parse_total', 'c01_c05_table_iter_total', 'c01_c05_table_iter_stops_after_error', 'c01_c05_table_nth_total', 'c01_c05_lookup_total', 'c01_c05_hdr_fde_for_address_total', 'c01_c06_no_panic', 'c01_c06_parse_insn_total', 'c01_c07_decode_no_panic', 'c01_c07_operations_terminate', 'c01_c07_eval_no_panic', 'c01_c08_no_panic_raw_ranges', 'c01_c08_no_panic_raw_locations', 'c01_c08_no_panic_tables', 'c01_c08_no_panic_ranges', 'c01_c08_no_panic_locations', 'c01_c08_no_panic_die_ranges_all', 'c01_c08_iter_terminates', 'c01_c08_raw_iter_stops_after_error', 'c01_c17_index_find_terminates', 'c01_c17_index_parse_no_panic', 'c01_c17_index_find_no_panic', 'c01_c17_index_sections_no_panic', 'c01_c17_names_bucket_terminates', 'c01_c17_names_hash_terminates', 'c01_c17_names_headers_no_panic', 'c01_c17_names_index_new_no_panic', 'c01_c17_names_entries_no_panic', 'c01_c17_aranges_no_panic', 'c01_c17_pubstuff_no_panic', 'c01_c18_reader_no_panic', 'c01_c19_worklist_fuel'],
     explored_only=[
         'every unmodelled entry point (macros, names accessors, package index, whole-Dwarf walk, read->write converters): impl-side exploration with the oracle "returns normally within 4*len+64 steps, yields nothing after an error where documented"',
         'real stack depth, allocator behaviour, reads outside the buffer by unsafe code (see C10 for the bounds invariant)',
